@@ -1846,6 +1846,19 @@ func (b *builder) paths() *spec.Paths {
 			}
 			p.Paths[b.r.pick([]string{"/", "/a", "/a/{id}", "/é", "/q\"", "noslash", ""})] = *b.pathItem()
 		}},
+		{"path-twins", func() {
+			// keys that differ only in what an encoder might normalise away (the leading slash, letter case, a trailing
+			// slash): each is a member of its own or is left out, none may take the place of another
+			if p.Paths == nil {
+				p.Paths = map[string]spec.PathItem{}
+			}
+			k := b.r.pick([]string{"pets", "a/{id}", "x-pets"})
+			for i, key := range []string{k, "/" + k, "/" + strings.ToUpper(k), "/" + k + "/"} {
+				pi := b.pathItem()
+				pi.AddExtension("x-twin", float64(i))
+				p.Paths[key] = *pi
+			}
+		}},
 		{"AddExtension", func() { p.AddExtension(b.ext()) }},
 	})
 	return p
